@@ -390,6 +390,28 @@ func singleEdits(seedName, seed string, extraNames bool) []specEdit {
 					}
 				}
 			}
+			// an array parameter / header / items that carries a format and no items
+			if o, isObj := n.val.(map[string]any); isObj && o["type"] == "array" {
+				if _, has := o["items"]; has {
+					if d, ok := editAt(root, p, func(parent, k any) bool {
+						var obj map[string]any
+						switch t := parent.(type) {
+						case map[string]any:
+							obj, _ = t[k.(string)].(map[string]any)
+						case []any:
+							obj, _ = t[k.(int)].(map[string]any)
+						}
+						if obj == nil {
+							return false
+						}
+						delete(obj, "items")
+						obj["format"] = "csvish"
+						return true
+					}); ok {
+						emit("delete items and add a format at the array "+pt, d)
+					}
+				}
+			}
 			// rename a "name" value of parameters
 			if s, isStr := n.val.(string); isStr && len(p) > 0 && p[len(p)-1] == "name" {
 				for _, nn := range []string{"a.a", "", "x.y.x.y", "a"} {
